@@ -1,1 +1,114 @@
-/-! # C20 — property theorems (stub: not built yet) -/
+import PymocaVerif.Lemmas.CacheState
+/-!
+# C20 — the model cache is never used when stale
+
+Property theorems over the state machine of `Model/CacheState.lean` (`transfer_model`,
+`load_model`, `save_model`).  Histories are arbitrary finite lists of: rewrite/add a `.mo`
+file in the model folder or a library folder, change the pymoca version, call
+`transfer_model` with any options; also (shared with C21) interrupted transfers and
+truncations of the cache file.  The hypotheses of the property are `Admissible`:
+every edit gets a modification time strictly later than the cache file's, `mtime_check`
+stays on, and — forced by the proof, because `load_model` leaves `library_folders` out of
+the option comparison (`Cfg.exclLibs`) — the transfers of one history name the same
+library folders `L`.  `libs_excluded_stale` shows that last hypothesis cannot be dropped
+for the code as it is; with `exclLibs = false` it is vacuous.
+-/
+namespace PymocaVerif.CacheState
+
+variable {M : Type}
+
+/-- `Fresh` is an invariant of every admissible history (no bound on its length). -/
+theorem fresh_invariant (cfg : Cfg M) (L : List Folder) (hlaw : Lawful cfg) (hist : List Op)
+    (w : World M) (h0 : FreshInv cfg L w) (hadm : Admissible cfg L w hist) :
+    FreshInv cfg L (run cfg w hist).1 :=
+  (history_spec hlaw hist w h0 hadm).2
+
+/-- Every `transfer_model` call of every admissible history returns (never raises) a model,
+    and that model is the compile of the sources, options and version current at the call. -/
+theorem transfer_correct (cfg : Cfg M) (L : List Folder) (hlaw : Lawful cfg) (hist : List Op)
+    (w : World M) (h0 : FreshInv cfg L w) (hadm : Admissible cfg L w hist) :
+    AllCorrect cfg w hist :=
+  (history_spec hlaw hist w h0 hadm).1
+
+/-- The same, spelled out for one call after an arbitrary admissible history that starts
+    without a cache file: the result equals `compile version (current sources) options`. -/
+theorem transfer_after_history (cfg : Cfg M) (L : List Folder) (hlaw : Lawful cfg)
+    (fs : Folder → List SrcFile) (v : Nat) (hist : List Op)
+    (hadm : Admissible cfg L ⟨fs, none, v⟩ hist) (o : Opts) (now size : Nat)
+    (hm : o.norm.mtimeCheck = true) (hl : cfg.exclLibs = true → o.libs = L) :
+    let w := (run cfg ⟨fs, none, v⟩ hist).1
+    (transfer cfg w o now size).2.model? =
+      some (cfg.compile w.version (srcs w.fs o.norm) o.norm) := by
+  intro w
+  have h0 : FreshInv cfg L ⟨fs, none, v⟩ := by intro c hc; cases hc
+  have hinv := fresh_invariant cfg L hlaw hist _ h0 hadm
+  exact (transfer_spec o now size .done hlaw hinv hm hl).1
+
+/-- When `library_folders` takes part in the option comparison (`exclLibs = false`) no
+    hypothesis on the library folders is needed: a hit returns the current compile. -/
+theorem transfer_correct_libs_compared (cfg : Cfg M) (hex : cfg.exclLibs = false)
+    (hlaw : Lawful cfg) (L : List Folder) (w : World M) (h0 : FreshInv cfg L w) (o : Opts)
+    (now size : Nat) (hm : o.norm.mtimeCheck = true) :
+    Correct cfg w o (transfer cfg w o now size).2 :=
+  (transfer_spec o now size .done hlaw h0 hm (by simp [hex])).1
+
+section examples
+/-- a compile function that keeps everything it is given -/
+abbrev Src := Nat × List (List (String × Nat)) × Opts
+def exOpts (l : List Folder) (r : String) : Opts :=
+  { libs := l, mtimeCheck := true, cache := true, codegen := false, expandMx := false, rest := [("detect_aliases", r)] }
+def exCfg (excl : Bool) : Cfg Src :=
+  { compile := fun v s o => (v, s, o), truncErr := fun n => ⟨[if n = 0 then "EOFError" else "UnpicklingError", "Exception"], false⟩,
+    exclLibs := excl }
+def exW : World Src := ⟨fun _ => [], none, 1⟩
+/-- edits after the cache, an option change, a version change, a library file added -/
+def exHist : List Op :=
+  [.write 0 "M.mo" 1 1, .write 1 "L.mo" 1 10, .transfer (exOpts [1] "False") 5 100,
+   .transfer (exOpts [1] "False") 6 100, .write 0 "M.mo" 7 2, .transfer (exOpts [1] "False") 9 100,
+   .transfer (exOpts [1] "True") 11 120, .setVersion 2, .transfer (exOpts [1] "True") 12 120,
+   .write 1 "K.mo" 13 30, .transfer (exOpts [1] "True") 14 130]
+
+theorem exLawful (b : Bool) : Lawful (exCfg b) := by
+  intro n; by_cases h : n = 0 <;> simp [exCfg, convert, caughtClasses, h]
+
+-- the hypotheses of the theorems are satisfiable by a history that exercises hit, edit,
+-- option change, version change and addition
+example : FreshInv (exCfg true) [1] exW ∧ Admissible (exCfg true) [1] exW exHist := by
+  refine ⟨(by intro c hc; cases hc), ?_⟩
+  simp [Admissible, exHist, OpOk, step, exW, transfer, load, exOpts, Opts.norm, exCfg, folders, stale,
+    CacheFile.complete, optsMatch, writeFile]
+-- … and the run really contains a hit and recompiles for four different reasons
+example : (run (exCfg true) exW exHist).2.map Outcome.kind =
+    ["compiled:no-file", "hit", "compiled:out-of-date", "compiled:options", "compiled:version",
+     "compiled:out-of-date"] := by
+  decide
+end examples
+
+/-- The hypothesis on `library_folders` cannot be dropped for the code as it is
+    (`exclLibs = true`): switching to another library folder whose files are older than the
+    cache is a history satisfying the mtime hypothesis on which `transfer_model` returns a
+    model compiled from the *old* library folder (DESIGN §6 row 11, finding C20-F1). -/
+theorem libs_excluded_stale :
+    ∃ (hist : List Op) (o : Opts) (m : Src),
+      Admissible (exCfg false) [] exW hist ∧  -- the mtime hypotheses hold (library clause vacuous)
+      (transfer (exCfg true) (run (exCfg true) exW hist).1 o 9 100).2 = .hit m ∧
+      m ≠ compileNow (exCfg true) (run (exCfg true) exW hist).1 o.norm := by
+  refine ⟨[.write 0 "M.mo" 1 1, .write 1 "A.mo" 1 10, .write 2 "A.mo" 1 20,
+           .transfer (exOpts [1] "False") 5 100], exOpts [2] "False",
+          (1, [[("M.mo", 1)], [("A.mo", 10)]], (exOpts [1] "False").norm), ?_, ?_, ?_⟩
+  · simp [Admissible, OpOk, step, exW, exOpts, Opts.norm, exCfg]
+  · rfl
+  · decide
+
+/-- The mtime hypothesis cannot be dropped either: an edit whose modification time is not
+    later than the cache file's is served from the cache. -/
+theorem old_mtime_edit_is_served_stale :
+    ∃ (hist : List Op) (o : Opts) (m : Src),
+      (transfer (exCfg true) (run (exCfg true) exW hist).1 o 9 100).2 = .hit m ∧
+      m ≠ compileNow (exCfg true) (run (exCfg true) exW hist).1 o.norm := by
+  refine ⟨[.write 0 "M.mo" 1 1, .transfer (exOpts [] "False") 5 100, .write 0 "M.mo" 5 2],
+          exOpts [] "False", (1, [[("M.mo", 1)]], (exOpts [] "False").norm), ?_, ?_⟩
+  · rfl
+  · decide
+
+end PymocaVerif.CacheState
